@@ -1,4 +1,4 @@
-CONSTANT Cfg <- Cfg_exc
+CONSTANT CfgSet <- S_exc
 INIT MCInit
 NEXT Next
 CHECK_DEADLOCK FALSE
